@@ -408,6 +408,7 @@ class BigQueryParser(parser.Parser):
         # https://cloud.google.com/bigquery/docs/reference/standard-sql/lexical#table_names
         if isinstance(this, exp.Identifier):
             table_name = this.name
+            last = None
             while self._match(TokenType.DASH, advance=False) and self._next:
                 start = self._curr
                 while self._is_connected() and not self._match_set(
@@ -419,17 +420,31 @@ class BigQueryParser(parser.Parser):
                     break
 
                 table_name += self._find_sql(start, self._prev)
+                last = self._prev
 
+            first = this
             this = exp.Identifier(this=table_name, quoted=this.args.get("quoted")).update_positions(
-                this
+                first
             )
+            if last and "start" in first.meta:
+                # The merged name ends where its last fragment ends
+                this.update_positions(
+                    line=last.line, col=last.col, start=first.meta["start"], end=last.end
+                )
         elif isinstance(this, exp.Literal):
             table_name = this.name
 
+            last = None
             if self._is_connected() and self._parse_var(any_token=True):
                 table_name += self._prev.text
+                last = self._prev
 
-            this = exp.Identifier(this=table_name, quoted=True).update_positions(this)
+            first = this
+            this = exp.Identifier(this=table_name, quoted=True).update_positions(first)
+            if last and "start" in first.meta:
+                this.update_positions(
+                    line=last.line, col=last.col, start=first.meta["start"], end=last.end
+                )
 
         return this
 
